@@ -184,6 +184,7 @@ type runResult struct {
 	Work     string
 	Missing  []string
 	Removed  []string // unexported functions named by the check that no longer exist
+	RebindNotes []string // renamed fields / functions the contracts were rebound to
 }
 
 func kindAllowed(kinds []string, k string) bool {
@@ -247,6 +248,142 @@ func executeSpec(spec *CheckSpec, tier string, overlay map[string][]byte) (*runR
 			return nil, err
 		}
 		rr.Progs = append(rr.Progs, p)
+	}
+	// contracts are rebound to renamed struct fields and renamed unexported functions (by position)
+	if data, err := os.ReadFile(filepath.Join(verifRoot, "specs", "fields.spec")); err == nil {
+		alias, notes := eng.ComputeFieldAliases(eng.ParseFieldsSpec(string(data)), rr.Progs)
+		eng.FieldAlias = alias
+		rr.RebindNotes = append(rr.RebindNotes, notes...)
+		tr := func(m map[string]bool) {
+			for k := range m {
+				if n, ok := alias[k]; ok {
+					delete(m, k)
+					m[k[:strings.LastIndex(k, ".")+1]+n] = true
+				}
+			}
+		}
+		tr(cs.Immutable)
+		for k, v := range cs.Containers {
+			if n, ok := alias[k]; ok {
+				delete(cs.Containers, k)
+				cs.Containers[k[:strings.LastIndex(k, ".")+1]+n] = v
+			}
+		}
+		// field keys named in the check file (analysis lists and arguments)
+		fixKey := func(k string) string {
+			head, tail := k, ""
+			if i := strings.Index(k, ":"); i >= 0 {
+				head, tail = k[:i], k[i:]
+			}
+			if n, ok := alias[head]; ok {
+				return head[:strings.LastIndex(head, ".")+1] + n + tail
+			}
+			return k
+		}
+		for ai := range spec.Analyses {
+			for li, it := range spec.Analyses[ai].List {
+				spec.Analyses[ai].List[li] = fixKey(it)
+			}
+			for k, v := range spec.Analyses[ai].Args {
+				parts := strings.Split(v, ",")
+				for pi := range parts {
+					parts[pi] = fixKey(strings.TrimSpace(parts[pi]))
+				}
+				if nv := strings.Join(parts, ","); strings.ReplaceAll(v, " ", "") == strings.ReplaceAll(nv, " ", "") {
+					continue
+				} else {
+					spec.Analyses[ai].Args[k] = nv
+				}
+			}
+		}
+		for _, g := range cs.Guards {
+			if n, ok := alias[g.Struct+"."+g.Lock]; ok {
+				g.Lock = n
+			}
+			for i, f := range g.Fields {
+				if n, ok := alias[g.Struct+"."+f]; ok {
+					g.Fields[i] = n
+				}
+			}
+		}
+	}
+	{
+		specJSON, _ := json.Marshal(spec)
+		allText := string(specJSON)
+		for _, t := range files {
+			allText += "\n" + t
+		}
+		var keys []string
+		arity := map[string]int{}
+		seenKey := map[string]bool{}
+		addKey := func(k string) {
+			if !seenKey[k] {
+				seenKey[k] = true
+				keys = append(keys, k)
+			}
+		}
+		for k, ct := range cs.Funcs {
+			if !ct.Flag("iface") {
+				addKey(k)
+				arity[k] = len(ct.ParamNames)
+			}
+		}
+		for k, ct := range cs.Names {
+			addKey(k)
+			arity[k] = len(ct.ParamNames)
+		}
+		for _, f := range spec.Functions {
+			addKey(f.Name)
+		}
+		for _, a := range spec.Analyses {
+			for _, f := range a.Functions {
+				addKey(f)
+			}
+		}
+		_ = arity
+		_ = allText
+		recorded := map[string]string{}
+		if data, err := os.ReadFile(filepath.Join(verifRoot, "specs", "funcs.spec")); err == nil {
+			recorded = eng.ParseSigsSpec(string(data))
+		}
+		ren, notes := eng.ComputeFuncRenames(keys, recorded, rr.Progs)
+		if len(ren) > 0 {
+			rr.RebindNotes = append(rr.RebindNotes, notes...)
+			for path, t := range files {
+				for o, n := range ren {
+					t = eng.ReplaceKey(t, o, n)
+				}
+				files[path] = t
+			}
+			cs2, err := eng.ParseContracts(files)
+			if err != nil {
+				return nil, err
+			}
+			for nk := range eng.DroppedReceiver {
+				if ct := cs2.Funcs[nk]; ct != nil && len(ct.ParamNames) > 0 {
+					ct.ParamNames = ct.ParamNames[1:]
+				}
+				if ct := cs2.Names[nk]; ct != nil && len(ct.ParamNames) > 0 {
+					ct.ParamNames = ct.ParamNames[1:]
+				}
+			}
+			cs2.Immutable, cs2.Containers = cs.Immutable, cs.Containers
+			for i, g := range cs2.Guards {
+				if i < len(cs.Guards) {
+					g.Lock, g.Fields = cs.Guards[i].Lock, cs.Guards[i].Fields
+				}
+			}
+			cs = cs2
+			rr.Contracts = cs
+			txt := string(specJSON)
+			for o, n := range ren {
+				txt = eng.ReplaceKey(txt, o, n)
+			}
+			var spec2 CheckSpec
+			if err := json.Unmarshal([]byte(txt), &spec2); err == nil {
+				*spec = spec2
+			}
+		}
 	}
 	fns := append([]FuncSpec{}, spec.Functions...)
 	if tier == "thorough" {
@@ -460,6 +597,10 @@ func report(spec *CheckSpec, rr *runResult, tier string, seed int, t0 time.Time)
 				notes = append(notes, n)
 			}
 		}
+	}
+	for _, n := range rr.RebindNotes {
+		notes = append(notes, "rebound: "+n)
+		fmt.Printf("NOTE property=%s %s\n", id, n)
 	}
 	for _, m := range rr.Removed {
 		notes = append(notes, "helper "+m+" named by the check no longer exists: its obligations are decided inside its callers")
